@@ -1,4 +1,5 @@
 import Splipy.Lemmas.EvalRow
+import Splipy.Lemmas.C08SeamRow
 import Splipy.Model.Object
 
 /-!
@@ -17,20 +18,30 @@ set_option linter.unusedVariables false
 
 variable {K : Type} [Field K] [LinearOrder K] [IsStrictOrderedRing K] [FloorRing K]
 
-/-- `t'` is `t`, or `t` moved by a whole number of periods of a valid periodic basis (both
-parameters exact for the tolerance and different from the domain end, whose row is a left limit). -/
+/-- The seam of a periodic basis has multiplicity `< p` (no `p` consecutive knots equal `start`):
+the declared continuity is at least `0`. -/
+def Basis.SeamSimple (b : Basis K) : Prop :=
+  ∀ j, j + (b.order - 1) < b.knots.size → b.kn j = b.start → b.kn (j + (b.order - 1)) ≠ b.start
+
+/-- `t'` is `t`, or `t` moved by a whole number of periods of a valid periodic basis, both parameters
+exact for the tolerance; either neither is the domain end, or the seam has multiplicity `< p` and the
+two seam parameters `start`, `stop` are exact too (then the domain end itself is allowed: the value
+row at `stop` is the one at `start`). -/
 def Basis.PeriodShift (b : Basis K) (tol t t' : K) : Prop :=
-  t' = t ∨ (b.Valid ∧ 0 ≤ b.periodic ∧ b.ExactAt tol t ∧ b.ExactAt tol t' ∧ t ≠ b.stop ∧ t' ≠ b.stop
+  t' = t ∨ (b.Valid ∧ 0 ≤ b.periodic ∧ b.ExactAt tol t ∧ b.ExactAt tol t' ∧
+    ((t ≠ b.stop ∧ t' ≠ b.stop) ∨ (b.SeamSimple ∧ b.ExactAt tol b.start ∧ b.ExactAt tol b.stop))
     ∧ ∃ m : ℤ, t' = t + m * (b.stop - b.start))
 
 theorem Basis.PeriodShift.evaluate_eq {b : Basis K} {tol t t' : K} (h : b.PeriodShift tol t t')
-    (htol : 0 < tol) (d : ℕ) (fr : Bool) :
-    b.evaluate tol (snap b tol t') d fr = b.evaluate tol (snap b tol t) d fr := by
-  rcases h with h | ⟨hv, hper, hex, hex', h1, h2, m, hm⟩
+    (htol : 0 < tol) :
+    b.evaluate tol (snap b tol t') 0 true = b.evaluate tol (snap b tol t) 0 true := by
+  rcases h with h | ⟨hv, hper, hex, hex', hcase, m, hm⟩
   · rw [h]
   · rw [snap_of_exact b htol hex, snap_of_exact b htol hex']
     subst hm
-    exact evaluate_add_int_mul hv hper htol m hex hex' h1 h2 d fr
+    rcases hcase with ⟨h1, h2⟩ | ⟨hs, he0, he1⟩
+    · exact evaluate_add_int_mul hv hper htol m hex hex' h1 h2 0 true
+    · exact evaluate_value_shift hv hper hs htol he0 he1 m hex hex'
 
 theorem Basis.PeriodShift.eq_of_nonperiodic {b : Basis K} {tol t t' : K}
     (h : b.PeriodShift tol t t') (hb : b.periodic < 0) : t' = t := by
@@ -38,15 +49,15 @@ theorem Basis.PeriodShift.eq_of_nonperiodic {b : Basis K} {tol t t' : K}
   · exact h
   · omega
 
-theorem forall₂_periodShift_map {b : Basis K} {tol : K} (htol : 0 < tol) (d : ℕ) (fr : Bool)
+theorem forall₂_periodShift_map {b : Basis K} {tol : K} (htol : 0 < tol)
     {ps ps' : List K} (h : List.Forall₂ (b.PeriodShift tol) ps ps') :
-    (ps'.map (snap b tol)).map (fun t => b.evaluate tol t d fr)
-      = (ps.map (snap b tol)).map (fun t => b.evaluate tol t d fr) := by
+    (ps'.map (snap b tol)).map (fun t => b.evaluate tol t 0 true)
+      = (ps.map (snap b tol)).map (fun t => b.evaluate tol t 0 true) := by
   induction h with
   | nil => rfl
   | cons hx _ ih =>
     simp only [List.map_cons]
-    rw [hx.evaluate_eq htol d fr, ih]
+    rw [hx.evaluate_eq htol, ih]
 
 theorem forall₂_periodShift_eq {b : Basis K} {tol : K} (hb : b.periodic < 0)
     {ps ps' : List K} (h : List.Forall₂ (b.PeriodShift tol) ps ps') : ps' = ps := by
@@ -143,6 +154,6 @@ theorem matsOf_congr {tol : K} (htol : 0 < tol) {z z' : List (Basis K × List K)
     rw [ih]
     congr 1
     unfold Obj.basisMat
-    rw [← hb, forall₂_periodShift_map htol 0 true hp]
+    rw [← hb, forall₂_periodShift_map htol hp]
 
 end Splipy
